@@ -8,9 +8,10 @@ from vlib import *  # noqa: F401,F403
 GEN = os.path.join(WORK, "e4")
 
 
-def real_rlib():
-    """Build the unmodified crate (harness/realcrate, verbatim copy of /repo/src) and return (rlib, deps dir)."""
-    r = subprocess.run(["cargo", "build", "--offline", "-q", "-p", "injectorpp", "--message-format=json"],
+def real_rlib(release=False):
+    """Build the unmodified crate (harness/realcrate, verbatim copy of /repo/src) and return (rlib, deps dir).
+    release=True: the release profile (debug assertions and overflow checks off)."""
+    r = subprocess.run(["cargo", "build", "--offline", "-q", "-p", "injectorpp", "--message-format=json"] + (["--release"] if release else []),
                        cwd=HARNESS, env=env_offline(), capture_output=True, text=True)
     if r.returncode != 0:
         raise MachineryError("the unmodified crate does not build: " + r.stderr[-2000:])
@@ -26,11 +27,11 @@ def real_rlib():
                     rlib = f
     if not rlib:
         raise MachineryError("rlib of the unmodified crate not found in cargo's output")
-    return rlib, os.path.join(TARGET, "debug", "deps")
+    return rlib, os.path.join(TARGET, "release" if release else "debug", "deps")
 
 
 def rustc(src_path, out_path, rlib, deps):
-    cmd = ["rustc", "--edition", "2021", "-C", "opt-level=0", "-C", "debuginfo=0", "-A", "warnings",
+    cmd = ["rustc", "--edition", "2021", "-C", "opt-level=0", "-C", "debuginfo=0", "-A", "warnings"] + (["-C", "debug-assertions=off"] if "/release/" in rlib else []) + [
            "--extern", f"injectorpp={rlib}", "-L", f"dependency={deps}", src_path, "-o", out_path]
     r = subprocess.run(cmd, capture_output=True, text=True, env=env_offline())
     return r.returncode, r.stderr
@@ -189,8 +190,11 @@ fn class(p: &(dyn std::any::Any + Send)) -> String {{
 fn main() {{
     let args: Vec<String> = std::env::args().collect();
     let n: usize = args[1].parse().unwrap();
-    let script = args.get(2).cloned().unwrap_or_default();
+    let scripts_arg = args.get(2).cloned().unwrap_or_default();
     let _ = n;
+    // every lifetime evaluates the same fake! source line (the loop body below)
+    for (life, script) in scripts_arg.split('/').enumerate() {{
+    if life > 0 {{ println!("lifetime {{life}}"); }}
     let r = catch_unwind(AssertUnwindSafe(|| {{
         let mut injector = InjectorPP::new();
         {installs}
@@ -212,6 +216,7 @@ fn main() {{
         Ok(()) => println!("exit: ok"),
         Err(p) => println!("exit: panic {{}}", class(p.as_ref())),
     }}
+    }}
     let mut o: i32 = 5;
     let a: i32 = 1;
     let v = {call.replace("&mut out", "&mut o")};
@@ -220,13 +225,32 @@ fn main() {{
 '''
 
 
-def arm_model(a, n, script):
-    """Reference model: expected stdout lines for (arm, N, script)."""
+def arm_model(a, n, scripts):
+    """Reference model for one or more lifetimes ('/'-separated scripts), every one judged like a first one."""
+    lines = []
+    parts = scripts.split("/")
+    evals0 = 0
+    for li, sc in enumerate(parts):
+        if li > 0:
+            lines.append(f"lifetime {li}")
+        one, evals0 = arm_model_one(a, n, sc, evals0)
+        if li < len(parts) - 1:
+            if any(l.startswith("ABORT") for l in one):
+                lines += one
+                return lines
+            one = [l for l in one if not l.startswith("after:")]
+        lines += one
+    return lines
+
+
+def arm_model_one(a, n, script, evals0=0):
+    """Reference model: expected stdout lines for (arm, N, script); the evaluation counter of the
+    `returns` expression is the harness's own static and keeps counting across lifetimes."""
     opts = a["opts"]
     unit = a["unit"]
     nounwind = a["kind"] in ("C", "system")
     has_when, has_assign, has_returns, has_times = ("when" in opts), ("assign" in opts), ("returns" in opts), ("times" in opts)
-    out, evals, count = 5, 0, 0
+    out, evals, count = 5, evals0, 0
     lines = []
     aborted = False
     for i, ch in enumerate(script):
@@ -263,7 +287,7 @@ def arm_model(a, n, script):
         else:
             lines.append("exit: ok")
         lines.append("after: ret=" + ("()" if unit else "7001") + " out=1005")
-    return lines
+    return lines, evals
 
 
 def judge_arm_run(a, n, script, rc, stdout, stderr):
@@ -315,6 +339,8 @@ def judge_arm_run(a, n, script, rc, stdout, stderr):
                 what = "scope-exit-verdict"
             elif w.startswith("after"):
                 what = "not-restored-after-scope"
+            if "/" in script and any(x.startswith("lifetime") for x in want[:i]):
+                what = "later-lifetime:" + what
             return (what, f"{ctx}: line {i}: got {g!r}, reference model says {w!r}")
     if rc != 0:
         return ("exit-status", f"{ctx}: process exit status {rc}, stderr {stderr[-200:]!r}")
@@ -352,6 +378,11 @@ def c08(tier, mi):
         for n in ns:
             for sc in scripts_for(a, n if "times" in a["opts"] else 1, 1 if tier == "thorough" else 0):
                 runs.append((a, n, sc, [exe, str(n), sc]))
+            if "times" in a["opts"] and a["kind"] in ("safe", "unsafe"):
+                # the same source line evaluated by several lifetimes (C07 across the arm matrix)
+                m = "m" * n
+                for sc in (f"{m}/{m}", f"{m}m/{m}", f"{m}/{m}/{m}", f"{'m' * max(0, n - 1)}/{m}"):
+                    runs.append((a, n, sc, [exe, str(n), sc]))
     results = run_many([r[3] for r in runs])
     outcomes = set()
     for (a, n, sc, _), (rc, so, se) in zip(runs, results):
@@ -410,12 +441,16 @@ def sig_family():
     add("r_str", "fn(i32) -> String", "a: i32", "String")
     add("case_U", "fn(Foo) -> i32", "a: Foo", "i32")
     add("case_l", "fn(foo) -> i32", "a: foo", "i32")
+    add("homo_1", "fn(m1::Config) -> i32", "a: m1::Config", "i32")
+    add("homo_2", "fn(m2::Config) -> i32", "a: m2::Config", "i32")
+    add("homo_r1", "fn(i32) -> m1::Error", "a: i32", "m1::Error")
+    add("homo_r2", "fn(i32) -> m2::Error", "a: i32", "m2::Error")
     add("ref", "fn(&'static i32) -> i32", "a: &'static i32", "i32", judged=False)   # lifetime spelling only: exercised, not judged
     return F
 
 
 def default_value(ret):
-    return {"": "()", "i32": "1", "u32": "1", "i64": "1", "bool": "true", "Option<i32>": "Some(1)", "String": "String::new()"}[ret]
+    return {"": "()", "i32": "1", "u32": "1", "i64": "1", "bool": "true", "Option<i32>": "Some(1)", "String": "String::new()", "m1::Error": "m1::Error", "m2::Error": "m2::Error"}[ret]
 
 
 def gen_c09_program():
@@ -427,6 +462,8 @@ def gen_c09_program():
            'use std::panic::{catch_unwind, AssertUnwindSafe};',
            '#[derive(Clone, Copy)] pub struct Foo(pub i32);',
            '#[derive(Clone, Copy)] pub struct foo(pub i32);',
+           'pub mod m1 { #[derive(Clone, Copy)] pub struct Config(pub i32); pub struct Error; }',
+           'pub mod m2 { #[derive(Clone, Copy)] pub struct Config(pub i64); pub struct Error; }',
            'fn class(p: &(dyn std::any::Any + Send)) -> &\'static str { let m = p.downcast_ref::<String>().cloned().or_else(|| p.downcast_ref::<&str>().map(|s| s.to_string())).unwrap_or_default(); if m.contains("Signature mismatch") { "MISMATCH" } else if m.contains("Pointer must not be null") { "NULL" } else { "OTHER" } }',
            'fn bytes(p: *const ()) -> [u8; 16] { let mut b = [0u8; 16]; unsafe { std::ptr::copy_nonoverlapping(p as *const u8, b.as_mut_ptr(), 16) }; b }']
     for i, f in enumerate(F):
@@ -713,10 +750,26 @@ def gen_c10_program():
 
 
 def c10_gate(tier, mi):
-    rlib, deps = real_rlib()
+    v1, c1 = c10_gate_profile(tier, mi, False)
+    # the same gate against a release build of the crate (debug assertions off): a refusal must not
+    # depend on the build profile
+    v2, c2 = c10_gate_profile(tier, mi, True)
+    for v in v2:
+        v["key"] += ":release-profile"
+        v["what"] += " (crate built with the release profile)"
+    c1["states"] += c2["states"]
+    c1["transitions"] += c2["transitions"]
+    c1["traces_validated_against_impl"] += c2["traces_validated_against_impl"]
+    c1["profiles"] = ["dev", "release"]
+    return v1 + v2, c1
+
+
+def c10_gate_profile(tier, mi, release):
+    rlib, deps = real_rlib(release)
     src, G = gen_c10_program()
-    built = build_many({"c10_gate": src}, rlib, deps)
-    ok, err, exe = built["c10_gate"]
+    name = "c10_gate_release" if release else "c10_gate"
+    built = build_many({name: src}, rlib, deps)
+    ok, err, exe = built[name]
     if not ok:
         raise MachineryError("generated program c10_gate does not compile against this tree: " + err[-1500:])
     rc, so, se = run_many([[exe]], timeout=60)[0]
